@@ -656,7 +656,14 @@ impl<T: AsRef<[u8]>> Frame<T> {
         } else {
             0
         };
-        &b[5..][..length]
+        // The field follows the security control octet and the frame counter (4 octets unless
+        // suppressed).
+        let offset = if self.frame_counter_suppressed() {
+            1
+        } else {
+            5
+        };
+        &b[offset..][..length]
     }
 
     /// Return the Key Source field.
